@@ -9,6 +9,16 @@ TABLE = [
      "enumerated (complete over order types for this comparison-only code), plus random dyadic/decimal tiers and "
      "multi-tier textgrids; results compared entry-for-entry with a reference crop written from the statement.",
      _NOTE, "DESIGN.md section 3 C06"),
+    ("C07", "exhaustive order-type enumeration + Hypothesis generated decimal tiers/regions vs exact-rational reference eraseRegion",
+     "All tiers of <=3 (thorough <=4) intervals / <=3 points on a small grid x all in-span regions x modes x doShrink are "
+     "enumerated and compared bit-for-bit with a reference model written from the statement; random dyadic and non-dyadic "
+     "decimal tiers and multi-tier textgrids are compared entry-for-entry within 4 ulp and may never fail with an exception.",
+     _NOTE, "DESIGN.md section 3 C07"),
+    ("C08", "exhaustive order-type enumeration + Hypothesis generated decimal tiers vs exact-rational reference insertSpace; inverse (round-trip) oracle",
+     "All small grid tiers x all insertion points x durations x 4 modes are enumerated against a reference insertSpace; random "
+     "decimal tiers/textgrids likewise within 4 ulp; the composition insertSpace;eraseRegion(shrink) must restore the "
+     "label-at-every-time function and the span.",
+     _NOTE, "DESIGN.md section 3 C08"),
 ]
 
 PENDING = {}
